@@ -418,7 +418,7 @@ def sc_equals_textbook(ctx, cfg):
     _sc_textbook_body(ctx, cfg)
 
 
-@obligation("C11.sc_equals_textbook_sum_product", function=_SC_FUNCS, configs=lambda tier: _sc_cfgs(tier, ("sum_product",)), timeout_ms=60000, crosscheck=0)
+@obligation("C11.sc_equals_textbook_sum_product", function=_SC_FUNCS, configs=lambda tier: _sc_cfgs(tier, ("sum_product",)), timeout_ms=120000, crosscheck=0)
 def sc_equals_textbook_sp(ctx, cfg):
     """sum-product regime: tanh / atanh / the product of the two tanh values are uninterpreted (with their sign / monotonicity axioms) on both
     sides; equality follows by congruence.  No differential cross-check here (a z3 model interprets the uninterpreted functions freely);
@@ -436,7 +436,7 @@ def noise_free_llr(ctx, x_payload, mags):
     return vals
 
 
-def _nf_cfgs(tier):
+def _nf_cfgs(tier, regimes=("min_sum", "sum_product")):
     out = []
     grid = []
     for N in (2, 4, 8):
@@ -444,16 +444,27 @@ def _nf_cfgs(tier):
     grid += [(16, k) for k in ((1, 5) if tier == "quick" else (1, 3, 5, 8))]  # larger k: z3 runs out of time (stated bound; natively covered)
     for N, k in grid:
         for fz, pi in ((0, 0), (1, 1)) + (((0, 1), (1, 0)) if (tier == "thorough" or N <= 4) else ()):
-            for regime in ("min_sum", "sum_product"):
+            for regime in regimes:
                 for mag in ("uniform", "per_position") if N <= 8 else ("uniform",):
                     out.append(Cfg("polar", N, k, fz, pi, None, regime, mag))
-    out.append(Cfg("polar", 8, 3, 0, 0, user_mask(8, 3, 0), "min_sum", "per_position"))
-    out.append(Cfg("polar", 8, 5, 1, 1, user_mask(8, 5, 1), "sum_product", "uniform"))
+    if "min_sum" in regimes:
+        out.append(Cfg("polar", 8, 3, 0, 0, user_mask(8, 3, 0), "min_sum", "per_position"))
+    if "sum_product" in regimes:
+        out.append(Cfg("polar", 8, 5, 1, 1, user_mask(8, 5, 1), "sum_product", "uniform"))
     return out
 
 
-@obligation("C11.sc_noise_free", function=_SC_FUNCS + "; " + FE + ":PolarCodeEncoder.forward", configs=_nf_cfgs, timeout_ms=60000, crosscheck=0)
+@obligation("C11.sc_noise_free", function=_SC_FUNCS + "; " + FE + ":PolarCodeEncoder.forward", configs=lambda tier: _nf_cfgs(tier, ("min_sum",)), timeout_ms=60000, crosscheck=2)
 def sc_noise_free(ctx, cfg):
+    _sc_noise_free_body(ctx, cfg)
+
+
+@obligation("C11.sc_noise_free_sum_product", function=_SC_FUNCS + "; " + FE + ":PolarCodeEncoder.forward", configs=lambda tier: _nf_cfgs(tier, ("sum_product",)), timeout_ms=120000, crosscheck=0)
+def sc_noise_free_sp(ctx, cfg):
+    _sc_noise_free_body(ctx, cfg)
+
+
+def _sc_noise_free_body(ctx, cfg):
     """forall messages m, forall magnitudes a > 0 (one common magnitude, or one per position):  SC(a (1 - 2 forward(m))) == m.
     The codeword comes from the real encoder in the same run.  Sum-product: tanh, atanh and the product are uninterpreted with their sign
     axioms (DESIGN 4.3); float saturation of tanh is outside the model (C11.sc_native covers magnitudes 0.5..100 natively)."""
